@@ -133,6 +133,9 @@ pub struct RtWorld {
     pub vcp_request_seq: Option<u64>,
     /// frontier when the first delivery was recorded (upper end of the linearisation window)
     pub first_delivery_frontier: Option<(i64, usize)>,
+    /// a session that issues more requests than this is a runaway (it is parked and reported)
+    pub max_requests: u64,
+    pub request_budget_exceeded: bool,
 }
 
 pub fn dir_of(v0: usize, g: i64) -> usize {
@@ -542,6 +545,11 @@ impl Backend for RtWorld {
                 }
                 _ => {}
             }
+        }
+        if self.requests_seen > self.max_requests && !self.request_budget_exceeded {
+            self.request_budget_exceeded = true;
+            core.cancel_requested = true;
+            core.ctx.ev("runaway", &[self.requests_seen], || "request budget exceeded: the session is parked".into());
         }
         if let Some(n) = self.cancel_after_requests {
             if self.requests_seen > n {
